@@ -21,7 +21,7 @@ def schemas_for(ctx, n):
     out = []
     for k in range(n):
         rng = random.Random(f"C03-schema:{ctx.seed}:{k}")
-        out.append((f"{k}", W.SchemaX(G.gen_schema(rng, f"vt{k}", n_entities=rng.randint(3, 6), cover_all_kinds=(k % 2 == 0)))))
+        out.append((f"{k}", W.SchemaX(G.gen_schema(rng, f"vt{k}", n_entities=rng.randint(3, 6), kinds=list(G.KIND_POOL), cover_all_kinds=(k % 2 == 0)))))
     return out
 
 
